@@ -179,10 +179,13 @@ RotateAxisVerdict(ev) ==
 RnaMVerdict(ev) ==
     IF ~AngleOK(ev, ev.a[2][1], 1) THEN VBad ELSE
     LET M == Q4(ev.a[1]) IN VBool(NearM(Fm(ev), ev.r, MMul(M, Rot4(Co(ev), Si(ev), QSeq(ev.a[3]))), BlockScale(M, 3), KRot(ev)))
-\* (cn, sn, cd) = cosine / sine of HALF the logged angle
+\* (cn, sn, cd) = cosine / sine of HALF the logged angle WITHOUT the k whole turns: the half angle of  2 theta_h + 2 pi k  is
+\* theta_h + pi k,  so the quaternion (cos, sin * axis) changes sign with every odd turn (q and -q are the same rotation, but
+\* the function is specified to return this one)
 RnaQVerdict(ev) ==
     IF ~AngleOK(ev, ev.a[2][1], 2) THEN VBad ELSE
-    LET q == QSeq(ev.a[1]) IN VBool(NearV(Fm(ev), ev.r, QuatMul(q, AxisQuat(Co(ev), Si(ev), QSeq(ev.a[3]))), Const(4, V1Norm(q)), KRot(ev)))
+    LET q == QSeq(ev.a[1]) sg == IF ev.k % 2 = 0 THEN QOne ELSE QNeg(QOne)
+    IN VBool(NearV(Fm(ev), ev.r, QuatMul(q, AxisQuat(QMul(sg, Co(ev)), QMul(sg, Si(ev)), QSeq(ev.a[3]))), Const(4, V1Norm(q)), KRot(ev)))
 
 \* orientation(Normal, Up): the rotation about Up x Normal that takes Up to Normal (unit vectors)
 KOri == 32
